@@ -35,6 +35,9 @@ namespace randomx {
 
 	template<class Allocator, bool softAes, bool secureJit>
 	class CompiledLightVm : public CompiledVm<Allocator, softAes, secureJit> {
+#ifdef RANDOMX_VERIF
+		friend struct randomx_verif::Access;
+#endif
 	public:
 		void* operator new(size_t size) {
 			void* ptr = AlignedAllocator<CacheLineSize>::allocMemory(size);
